@@ -246,6 +246,17 @@ func TestC10(t *testing.T) {
 			}
 			return
 		}
+		if rapid.IntRange(0, 14).Draw(t, "derived") == 0 {
+			// a parser derived for an inner production elides what the grammar's parser elides
+			if c, b, toks := genDerived(t, r); c != nil {
+				c.DerivedAlt = gram.Render(t, c.G, toks, "e")
+				if rapid.IntRange(0, 3).Draw(t, "minimal") == 0 {
+					c.DerivedAlt = gram.RenderMinimal(c.G, toks)
+				}
+				report(t, r, checkC10Derived(c, c.DerivedAlt, b, r), c)
+			}
+			return
+		}
 		named := rapid.IntRange(0, 99).Draw(t, "named") < 15
 		o := gram.GenOpts{MaxProds: 4, MaxDepth: 4, TrapPercent: 20, NameElided: named, Profiles: true, Parseables: true}
 		g := gram.GenGrammar(t, o)
@@ -320,6 +331,9 @@ func TestC10Replay(t *testing.T) {
 		b, msg := buildGrammar(c.G)
 		if msg != "" {
 			return violationf("build", "%s", msg)
+		}
+		if c.Derived > 0 {
+			return checkC10Derived(&c, c.DerivedAlt, b, nil)
 		}
 		if c.Input2 == "" {
 			return checkC01(&c, b, nil)
@@ -539,47 +553,159 @@ func checkC11(c *gramCase, b *gram.Built, r *vstat.Run) outcome {
 	return outcome{}
 }
 
-// checkC11Derived: a parser derived for an inner production describes its nodes exactly like the grammar's own
-// parser does, whatever the two parsers have parsed before.
-func checkC11Derived(c *gramCase, b *gram.Built, r *vstat.Run) outcome {
-	lx, err := b.Lex(c.Input2)
-	if err != nil {
-		return outcome{}
+// ---- parsers derived for inner productions (participle.ParserForProduction) of the static family SR4 ----
+
+// genDerived draws a case: Input for the grammar's own parser (the history), Input2 for the parser derived for
+// production c.Derived; toks are the tokens of Input2.
+func genDerived(t *rapid.T, r *vstat.Run) (*gramCase, *gram.Built, []gram.VTok) {
+	sg := gram.StaticGrammars()
+	g := sg[len(sg)-1]
+	g.Lookahead = rapid.SampledFrom(gram.Lookaheads).Draw(t, "k")
+	es := g.Prof().ElideSets
+	g.Elide = es[rapid.IntRange(0, len(es)-1).Draw(t, "elideset")]
+	if rapid.Bool().Draw(t, "ci") {
+		g.CI = []string{"Ident"}
 	}
-	var wantOK, expensive bool
-	var wantNode *gram.Node
+	b, msg := buildGrammar(g)
+	if msg != "" {
+		r.Count("build_failed_left_to_C19")
+		return nil, nil, nil
+	}
+	c := &gramCase{G: g, Derived: rapid.IntRange(1, 2).Draw(t, "prod"), DerivedFirst: rapid.IntRange(0, 3).Draw(t, "derivedfirst") == 0}
+	c.Input = gram.Render(t, g, gram.GenInput(t, g), "r")
+	sub := *g
+	sub.Unions = []gram.Union{{Members: []int{c.Derived}, Ptr: []bool{false}}}
+	toks := gram.GenInput(t, &sub)
+	c.Input2 = gram.Render(t, g, toks, "d")
+	return c, b, toks
+}
+
+type derivedRun struct {
+	lx       *gram.Lexed
+	wantOK   bool
+	wantNode *gram.Node
+	ast      any
+	err      error
+	skip     string // non-empty: not judged
+}
+
+// runDerived parses input with the parser derived for c.Derived (after / before the grammar's parser parsed c.Input)
+// and with the reference parser started at that production.
+func runDerived(c *gramCase, b *gram.Built, input string) derivedRun {
+	var d derivedRun
+	lx, err := b.Lex(input)
+	if err != nil {
+		d.skip = "unlexable"
+		return d
+	}
+	d.lx = lx
 	m := gram.NewModel(b.G, lx.Toks)
 	func() {
 		defer func() {
 			if rec := recover(); rec != nil {
-				expensive = true
+				d.skip = "expensive"
 			}
 		}()
-		wantOK, wantNode, _ = m.ParseProd(c.Derived)
+		d.wantOK, d.wantNode, _ = m.ParseProd(c.Derived)
 	}()
-	if expensive {
-		return outcome{}
+	if d.skip != "" {
+		return d
 	}
-	var ast any
-	var perr error
 	var have bool
 	pm := guard(func() {
 		if !c.DerivedFirst {
 			_, _ = b.P.ParseString("f", c.Input)
 		}
-		ast, perr, have = gram.DerivedParse(b, c.Derived, c.Input2)
+		d.ast, d.err, have = gram.DerivedParse(b, c.Derived, input)
 		if c.DerivedFirst {
 			_, _ = b.P.ParseString("f", c.Input)
-			ast, perr, have = gram.DerivedParse(b, c.Derived, c.Input2)
+			d.ast, d.err, have = gram.DerivedParse(b, c.Derived, input)
 		}
 	})
-	if pm != "" || !have || (perr == nil) != wantOK {
+	if pm != "" {
+		d.skip = "panic: " + pm
+	} else if !have {
+		d.skip = "no derived parser"
+	}
+	return d
+}
+
+func describeDerived(c *gramCase, input string) string {
+	return fmt.Sprintf("parser derived for production P%d (ParserForProduction), input %q, the grammar's own parser parsed %q %s\n%s",
+		c.Derived, input, c.Input, map[bool]string{true: "afterwards", false: "before"}[c.DerivedFirst], c.G.String())
+}
+
+// checkC01Derived: the derived parser means what the production means.
+func checkC01Derived(c *gramCase, b *gram.Built, r *vstat.Run) outcome {
+	d := runDerived(c, b, c.Input2)
+	if strings.HasPrefix(d.skip, "panic: ") {
+		return violationf("panic", "Parse panicked: %s\n%s", d.skip, describeDerived(c, c.Input2))
+	}
+	if d.skip != "" {
+		return outcome{}
+	}
+	if r != nil {
+		r.Eval()
+		r.Count("case_with_a_parser_derived_for_an_inner_production")
+		if d.wantOK {
+			r.Count("accepted")
+		} else {
+			r.Count("rejected")
+		}
+	}
+	if (d.err == nil) != d.wantOK {
+		return violationf("acceptance", "acceptance differs: documented meaning accepts=%v, parser error=%v\n%s", d.wantOK, d.err, describeDerived(c, c.Input2))
+	}
+	if !d.wantOK {
+		return outcome{}
+	}
+	cmp := &gram.Comparer{B: b, L: d.lx, Values: true}
+	cmp.Node(reflect.ValueOf(d.ast), d.wantNode, -1, "root")
+	if len(cmp.Mis) > 0 {
+		return violationf(mismatchSig(cmp.Mis), "AST differs from the accepted derivation:\n%s%s\nAST: %s", fmtMis(cmp.Mis), describeDerived(c, c.Input2), gram.Plain(reflect.ValueOf(d.ast)))
+	}
+	return outcome{}
+}
+
+// checkC10Derived: Input2 and Text hold two renderings of the same tokens; the derived parser treats them alike.
+func checkC10Derived(c *gramCase, other string, b *gram.Built, r *vstat.Run) outcome {
+	d1, d2 := runDerived(c, b, c.Input2), runDerived(c, b, other)
+	if d1.skip != "" || d2.skip != "" || !sameVToks(d1.lx.NonElided(), d2.lx.NonElided()) {
+		if r != nil {
+			r.Count("skipped_renderings_not_equivalent")
+		}
+		return outcome{}
+	}
+	if r != nil {
+		r.Eval()
+		r.Count("case_with_a_parser_derived_for_an_inner_production")
+		if d1.err == nil {
+			r.Count("accepted")
+		}
+	}
+	if (d1.err == nil) != (d2.err == nil) {
+		return violationf("acceptance", "inputs with identical non-elided tokens are not both accepted: %q -> %v ; %q -> %v\n%s", c.Input2, d1.err, other, d2.err, describeDerived(c, c.Input2))
+	}
+	if d1.err != nil {
+		return outcome{}
+	}
+	if p1, p2 := gram.PlainNoElided(b.G, reflect.ValueOf(d1.ast)), gram.PlainNoElided(b.G, reflect.ValueOf(d2.ast)); p1 != p2 {
+		return violationf("ast", "captured fields differ between two renderings of the same tokens:\n %q -> %s\n %q -> %s\n%s", c.Input2, p1, other, p2, describeDerived(c, c.Input2))
+	}
+	return outcome{}
+}
+
+// checkC11Derived: a parser derived for an inner production describes its nodes exactly like the grammar's own
+// parser does, whatever the two parsers have parsed before.
+func checkC11Derived(c *gramCase, b *gram.Built, r *vstat.Run) outcome {
+	d := runDerived(c, b, c.Input2)
+	if d.skip != "" || (d.err == nil) != d.wantOK {
 		if r != nil {
 			r.Count("derived_panic_or_acceptance_difference_left_to_C01_C06")
 		}
 		return outcome{}
 	}
-	if !wantOK {
+	if !d.wantOK {
 		if r != nil {
 			r.Count("rejected")
 		}
@@ -589,8 +715,8 @@ func checkC11Derived(c *gramCase, b *gram.Built, r *vstat.Run) outcome {
 		r.Eval()
 		r.Count("case_with_a_parser_derived_for_an_inner_production")
 	}
-	cmp := &gram.Comparer{B: b, L: lx, Positions: true}
-	cmp.Node(reflect.ValueOf(ast), wantNode, -1, "root")
+	cmp := &gram.Comparer{B: b, L: d.lx, Positions: true}
+	cmp.Node(reflect.ValueOf(d.ast), d.wantNode, -1, "root")
 	if r != nil {
 		r.Add("nodes_checked", int64(cmp.PosNodes))
 		if cmp.PosNodes > 0 && cmp.ElidedAdj > 0 {
@@ -608,7 +734,7 @@ func checkC11Derived(c *gramCase, b *gram.Built, r *vstat.Run) outcome {
 		}
 	}
 	if len(pmis) > 0 {
-		return violationf("positions", "a parser derived for production P%d (ParserForProduction) parsing %q: node positions / token lists differ from the text the node consumed:\n%s%s", c.Derived, c.Input2, fmtMis(pmis), describeCase(c))
+		return violationf("positions", "node positions / token lists differ from the text the node consumed:\n%s%s", fmtMis(pmis), describeDerived(c, c.Input2))
 	}
 	return outcome{}
 }
@@ -617,23 +743,9 @@ func TestC11(t *testing.T) {
 	runProp(t, "C11", c11Rule, func(t *rapid.T, r *vstat.Run) {
 		if rapid.IntRange(0, 11).Draw(t, "derived") == 0 {
 			// a family of named Go types: parsers for inner productions can be derived from the grammar's parser
-			sg := gram.StaticGrammars()
-			g := sg[len(sg)-1]
-			g.Lookahead = rapid.SampledFrom(gram.Lookaheads).Draw(t, "k")
-			es := g.Prof().ElideSets
-			g.Elide = es[rapid.IntRange(0, len(es)-1).Draw(t, "elideset")]
-			b, msg := buildGrammar(g)
-			if msg != "" {
-				r.Count("build_failed_left_to_C19")
-				return
+			if c, b, _ := genDerived(t, r); c != nil {
+				report(t, r, checkC11Derived(c, b, r), c)
 			}
-			c := &gramCase{G: g, Derived: rapid.IntRange(1, 2).Draw(t, "prod"), DerivedFirst: rapid.IntRange(0, 3).Draw(t, "derivedfirst") == 0}
-			c.Input = gram.Render(t, g, gram.GenInput(t, g), "r")
-			var toks []gram.VTok
-			fuel := 60
-			gram.Sample(t, g, g.Prods[c.Derived].Expr, &toks, &fuel)
-			c.Input2 = gram.Render(t, g, toks, "d")
-			report(t, r, checkC11Derived(c, b, r), c)
 			return
 		}
 		o := gram.GenOpts{MaxProds: 5, MaxDepth: 4, TrapPercent: 15, PosStyles: true, Profiles: true, Parseables: true, DeepEmbeds: true, NameElided: rapid.IntRange(0, 9).Draw(t, "named") == 0}
